@@ -8,133 +8,196 @@ import OPM.Gen.SaveLock
 same version, including concurrent ones, at most one is accepted, and each accepted save increases the version by
 exactly one."
 
-The transition system of `OPM.SaveConc` has two variants: `locked = false` (version check, engine round trip and
-commit of one request interleave with other requests at the await) and `locked = true` (a per-engine lock is held
-from the check to the commit).  The statement is false of the first and true of the second, for every schedule of
-any number of requests; `OPM.Gen.SaveLock` (regenerated from the source on every run) says which one the code is.
+The transition system of `OPM.SaveConc` has the variants `Cfg = (locked, resetOnRegister)`: with / without a
+per-engine lock held from the version check across the engine round trip to the commit, and with a method version
+that falls back to 0 / continues when the engine registers again after a disconnect.  Events: save requests with any
+base versions, engine answers (ok / error) in any order, engine disconnects and re-registrations at any point.  The
+statement holds of the variant (locked, version continues) for every schedule, and is refuted by a decided schedule
+for each of the other two defects.  Which variant the code is, is measured on the real handler by the harness;
+`OPM.Gen.SaveLock` (regenerated from the source on every run) independently says whether one lock spans check, round
+trip and commit.
 -/
 namespace OPM.C31
 open OPM.SaveConc
 
 /-- States reachable from version `v0` by enabled steps: every interleaving of any number of save requests (with
-any base versions) with the engine answers (ok / error) arriving in any order. -/
-inductive Reach (locked : Bool) (v0 : Nat) : State → Prop where
-  | init : Reach locked v0 (init v0)
-  | step {s s' : State} {e : Ev} : Reach locked v0 s → step locked s e = some s' → Reach locked v0 s'
+any base versions) with the engine answers, disconnects and re-registrations. -/
+inductive Reach (c : Cfg) (v0 : Nat) : State → Prop where
+  | init : Reach c v0 (init v0)
+  | step {s s' : State} {e : Ev} : Reach c v0 s → step c s e = some s' → Reach c v0 s'
 
 /-- What the property demands of one transition `s → s'`: it accepts at most one save; a save accepted by it was
-based on the version that was current when it was accepted, and raises the version by exactly one; a transition
-that accepts nothing leaves the version alone. -/
+based on the version that was current when it was accepted, and raises the version by exactly one; a transition that
+accepts nothing leaves the version alone — except a re-registration of the engine, which moves on to a version no
+save has been based on yet (one above). -/
 def StepOK (s s' : State) : Prop :=
-  (s'.accepted = s.accepted ∧ s'.version = s.version) ∨
-  (∃ r, s'.accepted = s.accepted ++ [r] ∧ r.base = s.version ∧ s'.version = s.version + 1 ∧ s'.owner = some r.id)
+  (s'.accepted = s.accepted ∧ s'.version = s.version ∧ s'.reconnects = s.reconnects) ∨
+  (∃ r, s'.accepted = s.accepted ++ [r] ∧ r.base = s.version ∧ s'.version = s.version + 1 ∧ s'.owner = some r.id ∧
+        s'.reconnects = s.reconnects) ∨
+  (s'.accepted = s.accepted ∧ s'.version = s.version + 1 ∧ s'.reconnects = s.reconnects + 1)
 
 /-- The full statement of C31 for one variant of the system. -/
-def Statement (locked : Bool) : Prop :=
-  ∀ (v0 : Nat) (s : State), Reach locked v0 s →
+def Statement (c : Cfg) : Prop :=
+  ∀ (v0 : Nat) (s : State), Reach c v0 s →
     -- of the saves based on one version at most one has been accepted
     (s.accepted.map (·.base)).Nodup ∧
-    -- the version has grown by exactly one per accepted save
-    s.version = v0 + s.accepted.length ∧
+    -- the version has grown by exactly one per accepted save (and per re-registration)
+    s.version = v0 + s.accepted.length + s.reconnects ∧
     -- accepted only if based on the current version, +1 each (every further transition)
-    (∀ e s', step locked s e = some s' → StepOK s s')
+    (∀ e s', step c s e = some s' → StepOK s s')
 
-theorem reach_good {v0 : Nat} {s : State} (h : Reach true v0 s) : Good v0 s := by
+theorem reach_good {v0 : Nat} {s : State} (h : Reach fixed v0 s) : Good v0 s := by
   induction h with
   | init => exact good_init v0
   | step _ hs ih => exact good_step ih hs
 
-/-- every enabled transition of the locked system from a state satisfying the invariant is as demanded -/
-theorem stepOK_of_good {v0 : Nat} {s s' : State} {e : Ev} (g : Good v0 s) (h : step true s e = some s') :
+/-- every enabled transition of the repaired system from a state satisfying the invariant is as demanded -/
+theorem stepOK_of_good {v0 : Nat} {s s' : State} {e : Ev} (g : Good v0 s) (h : step fixed s e = some s') :
     StepOK s s' := by
   cases e with
   | start id base =>
-    simp only [step] at h
+    simp only [step, fixed] at h
     split at h
     · cases h
     · split at h
-      · cases h; exact Or.inl ⟨rfl, rfl⟩
-      · cases h; exact Or.inl ⟨by simp, by simp⟩
+      · cases h; exact Or.inl ⟨rfl, rfl, rfl⟩
+      · by_cases hnil : s.awaiting = []
+        · simp only [hnil, List.isEmpty_nil, Bool.not_true, Bool.and_false, Bool.false_eq_true, if_false,
+            Option.some.injEq] at h
+          subst h; exact Or.inl ⟨by simp, by simp, by simp⟩
+        · have hne : (true && !s.awaiting.isEmpty) = true := by
+            cases hs : s.awaiting with
+            | nil => exact absurd hs hnil
+            | cons a l => simp
+          simp only [hne, if_true, Option.some.injEq] at h
+          subst h; exact Or.inl ⟨rfl, rfl, rfl⟩
   | reply id ok =>
-    simp only [step] at h
+    simp only [step, fixed] at h
     split at h
     · cases h
     · rename_i r hf
-      cases h
-      have hbase : r.base = s.version := g.cur r (find_mem hf)
-      cases ok with
-      | true =>
-        refine Or.inr ⟨r, ?_, hbase, ?_, ?_⟩
-        · simp
-        · simp [hbase]
-        · simp
-      | false => exact Or.inl ⟨by simp, by simp⟩
+      split at h
+      · cases h
+      · rename_i hen
+        cases h
+        cases ok with
+        | true =>
+          have hlive : ¬ (s.doomed.contains id = true) := by
+            simp only [Bool.true_and, Bool.or_eq_true, Bool.not_eq_true', not_or] at hen
+            exact hen.1
+          have hbase : r.base = s.version := by
+            rcases g.cur r (find_mem hf) with hb | hd
+            · exact hb
+            · exact absurd (by simpa [find_id hf] using hd) hlive
+          refine Or.inr (Or.inl ⟨r, ?_, hbase, ?_, ?_, ?_⟩)
+          · simp
+          · simp [hbase]
+          · simp
+          · simp
+        | false => exact Or.inl ⟨by simp, by simp, by simp⟩
+  | disconnect =>
+    simp only [step, fixed] at h
+    split at h
+    · cases h
+    · cases h; exact Or.inl ⟨rfl, rfl, rfl⟩
+  | register =>
+    simp only [step, fixed] at h
+    split at h
+    · cases h
+    · cases h; exact Or.inr (Or.inr ⟨rfl, by simp, rfl⟩)
 
-/-- **C31 for the system with the per-engine lock**: all interleavings, any number of requests. -/
-theorem locked_holds : Statement true := by
+/-- **C31 for the system with the per-engine lock and a version that survives re-registration**: all interleavings,
+any number of requests, disconnects and re-registrations at every point. -/
+theorem locked_holds : Statement fixed := by
   intro v0 s hr
   have g := reach_good hr
   exact ⟨g.nodup, g.count, fun e s' h => stepOK_of_good g h⟩
 
-/-- The schedule on which the system without the lock fails: two saves based on version 0 enter before the engine
-has answered the first; both are accepted. -/
-def witness : List Ev := [.start 0 0, .start 1 0, .reply 0 true, .reply 1 true]
-
-theorem reach_run {locked : Bool} {v0 : Nat} : ∀ (evs : List Ev) {s s' : State}, Reach locked v0 s →
-    run locked s evs = some s' → Reach locked v0 s' := by
+theorem reach_run {c : Cfg} {v0 : Nat} : ∀ (evs : List Ev) {s s' : State}, Reach c v0 s →
+    run c s evs = some s' → Reach c v0 s' := by
   intro evs
   induction evs with
   | nil => intro s s' h e; simp [run] at e; exact e ▸ h
   | cons a l ih =>
     intro s s' h e
     simp only [run, List.foldlM_cons, Option.bind_eq_bind] at e
-    cases hs : step locked s a with
+    cases hs : step c s a with
     | none => simp [hs] at e
     | some s₁ =>
       simp only [hs, Option.bind_some] at e
       exact ih (Reach.step h hs) e
 
+/-- The schedule on which the system without the lock fails: two saves based on version 0 enter before the engine
+has answered the first; both are accepted. -/
+def witness : List Ev := [.start 0 0, .start 1 0, .reply 0 true, .reply 1 true]
+
 /-- **Without the lock the statement is false** (two accepted saves on the same base; version raised once). -/
-theorem unlocked_violates : ¬ Statement false := by
+theorem unlocked_violates : ¬ Statement { locked := false, resetOnRegister := false } := by
   intro h
-  have hw : run false (init 0) witness =
+  have hw : run { locked := false, resetOnRegister := false } (init 0) witness =
       some { version := 1, owner := some 1, accepted := [⟨0, 0⟩, ⟨1, 0⟩], engineLog := [1, 1],
              results := [(0, .accepted 1), (1, .accepted 1)] } := by decide
   have := (h 0 _ (reach_run witness Reach.init hw)).1
   revert this
   decide
 
-/-- …and the same schedule is harmless with the lock: the second save waits, then is rejected. -/
-example : run true (init 0) witness = none := by decide   -- `reply 1` is never enabled: save 1 has no round trip
-example : run true (init 0) [.start 0 0, .start 1 0, .reply 0 true] =
+/-- The schedule on which a version that falls back to 0 on re-registration fails, lock or no lock: save 0 based on
+version 0 is accepted; the engine reconnects; save 1 — also based on version 0, by a client that never saw save 0 —
+is accepted and overwrites it. -/
+def reconnectWitness : List Ev := [.start 0 0, .reply 0 true, .disconnect, .register, .start 1 0, .reply 1 true]
+
+/-- **With the version reset on re-registration the statement is false.** -/
+theorem version_reset_violates : ¬ Statement { locked := true, resetOnRegister := true } := by
+  intro h
+  have hw : run { locked := true, resetOnRegister := true } (init 0) reconnectWitness =
+      some { version := 1, reconnects := 1, owner := some 1, accepted := [⟨0, 0⟩, ⟨1, 0⟩], engineLog := [1, 1],
+             results := [(0, .accepted 1), (1, .accepted 1)] } := by decide
+  have := (h 0 _ (reach_run reconnectWitness Reach.init hw)).1
+  revert this
+  decide
+
+/-- …and the same schedules are harmless in the repaired system: the second save waits and is then rejected; the
+stale save after the reconnect is rejected. -/
+example : run fixed (init 0) witness = none := by decide   -- `reply 1` is never enabled: save 1 has no round trip
+example : run fixed (init 0) [.start 0 0, .start 1 0, .reply 0 true] =
     some { version := 1, owner := some 0, accepted := [⟨0, 0⟩], engineLog := [1],
+           results := [(0, .accepted 1), (1, .rejected)] } := by decide
+example : run fixed (init 0) [.start 0 0, .reply 0 true, .disconnect, .register, .start 1 0] =
+    some { version := 2, reconnects := 1, accepted := [⟨0, 0⟩], engineLog := [1],
            results := [(0, .accepted 1), (1, .rejected)] } := by decide
 
 /-- Nobody waits for a free lock (the hand-over on release leaves no waiter behind). -/
-theorem no_waiter_on_free_lock {v0 : Nat} {s : State} (h : Reach true v0 s) (hf : s.awaiting = []) :
+theorem no_waiter_on_free_lock {v0 : Nat} {s : State} (h : Reach fixed v0 s) (hf : s.awaiting = []) :
     s.waiters = [] := (reach_good h).free hf
 
-/-- At most one engine round trip is pending at any time, and it carries the current version as its base. -/
-theorem one_round_trip_at_a_time {v0 : Nat} {s : State} (h : Reach true v0 s) :
-    s.awaiting.length ≤ 1 ∧ ∀ r ∈ s.awaiting, r.base = s.version :=
+/-- At most one engine round trip is pending at any time; it carries the current version as its base unless the
+connection dropped under it (then it can only fail). -/
+theorem one_round_trip_at_a_time {v0 : Nat} {s : State} (h : Reach fixed v0 s) :
+    s.awaiting.length ≤ 1 ∧ ∀ r ∈ s.awaiting, r.base = s.version ∨ r.id ∈ s.doomed :=
   ⟨(reach_good h).one, (reach_good h).cur⟩
 
-/-- The tie to the source: the regenerated table says `save_method` holds one lock from the version check across
+/-- The version never falls: a version number handed out once is never current again. -/
+theorem version_monotone {s s' : State} {e : Ev} {v0 : Nat} (hr : Reach fixed v0 s) (h : step fixed s e = some s') :
+    s.version ≤ s'.version := by
+  rcases stepOK_of_good (reach_good hr) h with ⟨_, h2, _⟩ | ⟨_, _, _, h2, _⟩ | ⟨_, h2, _⟩ <;> omega
+
+/-- The tie to the source: the regenerated table says `save_method` holds one lock from a version check across
 the engine round trip to the commit. (Fails to compile if the lock is removed.) -/
 theorem code_holds_lock : OPM.Gen.SaveLock.lockAcrossAwait = true := by decide
 
-/-- **C31 for the code as translated.** -/
-theorem c31 : Statement OPM.Gen.SaveLock.lockAcrossAwait := by
+/-- **C31 for the code as translated** (the version behaviour on re-registration is measured by the harness). -/
+theorem c31 : Statement { locked := OPM.Gen.SaveLock.lockAcrossAwait, resetOnRegister := false } := by
   rw [code_holds_lock]; exact locked_holds
 
-/-- Non-vacuity: a reachable state of the locked system with an accepted, a rejected and a failed save, and a
-sequential second accepted save. -/
-example : ∃ s, Reach true 3 s ∧ s.version = 5 ∧ s.accepted = [⟨0, 3⟩, ⟨3, 4⟩] ∧
-    s.results = [(1, .failed), (0, .accepted 4), (2, .rejected), (3, .accepted 5)] := by
-  have hw : run true (init 3)
-      [.start 1 3, .start 0 3, .start 2 3, .reply 1 false, .reply 0 true, .start 3 4, .reply 3 true] =
-      some { version := 5, owner := some 3, accepted := [⟨0, 3⟩, ⟨3, 4⟩], engineLog := [4, 4, 5],
-             results := [(1, .failed), (0, .accepted 4), (2, .rejected), (3, .accepted 5)] } := by decide
+/-- Non-vacuity: a reachable state of the repaired system with an accepted, a rejected and a failed save, a
+reconnect under a pending save, and a later accepted save. -/
+example : ∃ s, Reach fixed 3 s ∧ s.version = 6 ∧ s.accepted = [⟨0, 3⟩, ⟨3, 5⟩] ∧
+    s.results = [(1, .failed), (0, .accepted 4), (2, .rejected), (4, .failed), (3, .accepted 6)] := by
+  have hw : run fixed (init 3)
+      [.start 1 3, .start 0 3, .start 2 3, .reply 1 false, .reply 0 true, .start 4 4, .disconnect, .register,
+       .reply 4 false, .start 3 5, .reply 3 true] =
+      some { version := 6, reconnects := 1, owner := some 3, accepted := [⟨0, 3⟩, ⟨3, 5⟩], engineLog := [4, 4, 5, 6],
+             results := [(1, .failed), (0, .accepted 4), (2, .rejected), (4, .failed), (3, .accepted 6)] } := by decide
   exact ⟨_, reach_run _ Reach.init hw, rfl, rfl, rfl⟩
 
 end OPM.C31
